@@ -62,6 +62,35 @@ theorem handle_spec (dflt : Str) (d : Dec) :
   · intro ob h hd; subst hd
     cases ht : to4 h <;> simp [handle, ht]
 
+/-! ### the engine asks the rules with every address the resolution produced -/
+
+/-- `aclEngine.handle` on a fresh cache: the request is looked up under its name and BOTH
+    resolved addresses, and served by the first-match decision of that lookup (default when
+    none) -/
+theorem engine_decision (U : Str → Str) (rules : List Rule) (dflt : Str) (name : Str)
+    (ri : Option RInfo) (proto : Proto) (port : Nat) (evict : Key → Bool) :
+    (engineHandle U rules dflt [] name ri proto port evict).2.2 =
+      handle dflt (eval U rules (reqQuery name ri proto port)) := by
+  unfold engineHandle
+  simp only [match_is_first]
+
+/-- a resolution that carries an error AND addresses (A ok, AAAA failed, …) is consulted with
+    those addresses exactly like an error-free one: the error flag plays no part in which rule
+    decides — an IP or CIDR rule cannot be bypassed by a partially failed resolution -/
+theorem engine_consults_every_address (U : Str → Str) (rules : List Rule) (dflt : Str) (name : Str)
+    (v4 v6 : IP) (e₁ e₂ : Bool) (proto : Proto) (port : Nat) (c : Store) (evict : Key → Bool) :
+    reqQuery name (some ⟨v4, v6, e₁⟩) proto port = ⟨name, v4, v6, proto, port⟩ ∧
+    engineHandle U rules dflt c name (some ⟨v4, v6, e₁⟩) proto port evict =
+      engineHandle U rules dflt c name (some ⟨v4, v6, e₂⟩) proto port evict :=
+  ⟨rfl, rfl⟩
+
+-- reject(10.0.0.0/8) / direct(all): 10.0.0.1 resolved with an error still meets the reject rule
+example :
+    let rules : List Rule := [⟨[114], .cidr [10, 0, 0, 0] [255, 0, 0, 0], .both, 0, 0, none⟩,
+                              ⟨[100], .all, .both, 0, 0, none⟩]
+    (engineHandle id rules [100] [] [97] (some ⟨[10, 0, 0, 1], [], true⟩) .tcp 80 (fun _ => false)).2.2
+      = ([114], none) := by decide
+
 /-- what one rule tests -/
 theorem rule_match_spec (U : Str → Str) (r : Rule) (q : Query) :
     ruleMatch U r q = true ↔
